@@ -227,9 +227,7 @@ func (i *c11Inst) Apply(op int) (string, []rep.Violation) {
 			e1 := i.doc.SetPageOrientation(document.PageOrientation("diagonal"))
 			e2 := i.doc.SetCustomPageSize(5, 5)
 			e3 := i.doc.SetPageMargins(-1, 0, 0, 0)
-			if e1 == nil || e2 == nil || e3 == nil {
-				viol = append(viol, rep.Violation{Sig: "invalid-page-request-accepted", Clause: "error", What: fmt.Sprintf("diagonal orientation / 5x5 mm page / negative margin: errors %v %v %v", e1, e2, e3)})
-			}
+			_, _, _ = e1, e2, e3 // whether they are refused is C12's subject; here only the definitions count
 			i.lastNT = true
 		case "titlepg":
 			i.doc.SetDifferentFirstPage(true)
